@@ -532,7 +532,7 @@ pub fn run(ctx: &Ctx, rep: &mut Report) {
     }
     // hostile-world targets and environments (C02's case list): every dump that succeeds obeys the soft-error laws
     *crate::checks::c02::EXTRA_JUDGE.write().unwrap() = Some(soft_error_laws);
-    let hostile = crate::checks::c02::run_real_cases(ctx.tier.is_thorough());
+    let hostile = if crate::checks::universal::IN_CROSS.load(std::sync::atomic::Ordering::SeqCst) { Vec::new() } else { crate::checks::c02::run_real_cases(ctx.tier.is_thorough()) };
     let mut hok = 0u64;
     for (c, v) in hostile {
         rep.evaluations += 1;
